@@ -1375,6 +1375,19 @@ def call_builtin(it, name, args, kwargs):
     if name == "divmod":
         return (it.binop("FloorDiv", args[0], args[1]), it.binop("Mod", args[0], args[1]))
     if name == "hash":
+        # hash() of integers / identifiers / tuples of them: an uninterpreted function of the components (equal
+        # arguments hash equal, nothing else is known); objects with a __hash__ of their own: that method
+        v = it.unwrap(args[0])
+        if isinstance(v, VRec):
+            ci = it.engine.class_info(v.cls)
+            if ci and "__hash__" in ci.methods:
+                return it.call_method(v, "__hash__", [], {})
+        comps = list(v) if isinstance(v, tuple) else [v]
+        comps = [it.unwrap(x) for x in comps]
+        if comps and all(kind_of(x) in ("int", "bool") for x in comps):
+            f = z3.Function(f"pyhash_{len(comps)}", *([z3.IntSort()] * len(comps)), z3.IntSort())
+            _use(it, "model:hash() of integers/identifiers/tuples = an uninterpreted function of the components")
+            return mk(f(*[zof(x, "int") for x in comps]), "int")
         return Opaque("hash")
     if name in ("str", "repr"):
         return Opaque("str")
